@@ -104,6 +104,10 @@ def encItem : PathItem → Lean.Json
   | .param id => .arr #[.str "p", .num (JsonNumber.fromNat id)]
   | .const k => .arr #[.str "c", encKey k]
 
+/-- the flags read from the source: does `json_path_re` accept `#`, does the SQLite builder write `[#-N]` for JSON1 -/
+def srcHash : Bool := PonyVerif.Gen.JsonLits.jsonPathRe == "\\[#?(-?\\d+)\\]|\\.(?:(\\w+)|\"([^\"]*)\")"
+def negHash : Bool := PonyVerif.Gen.JsonLits.json1NegativeHash
+
 def handle (j : Lean.Json) : Except String Lean.Json := do
   let op ← argStr j "op"
   match op with
@@ -113,11 +117,13 @@ def handle (j : Lean.Json) : Except String Lean.Json := do
       let p := evalJsonPath W keys
       pure (Json.mkObj [("path", .str (String.ofList p)),
                         ("pg", .str (String.ofList (pgEvalJsonPath W keys))),
-                        ("parsed", encKeysOpt (parsePath W p))])
+                        ("j1path", .str (String.ofList (if negHash then evalJsonPathJ1 W keys else p))),
+                        ("j1parsed", encKeysOpt (parsePath W srcHash (if negHash then evalJsonPathJ1 W keys else p))),
+                        ("parsed", encKeysOpt (parsePath W srcHash p))])
   | "parse" =>
       let W := mkW (← argStr j "word")
       let t ← argStr j "text"
-      pure (Json.mkObj [("parsed", encKeysOpt (parsePath W t.toList))])
+      pure (Json.mkObj [("parsed", encKeysOpt (parsePath W srcHash t.toList))])
   | "nav" =>
       let doc ← decDoc (← j.getObjVal? "doc")
       let keys ← decKeys j "keys"
@@ -126,7 +132,7 @@ def handle (j : Lean.Json) : Except String Lean.Json := do
       let cte := PonyVerif.Gen.JsonLits.traverseCatchesTypeError
       let W := mkW (← argStr j "word")
       -- the helper functions receive the path TEXT and parse it back
-      let pk := parsePath W (evalJsonPath W keys)
+      let pk := parsePath W srcHash (evalJsonPath W keys)
       let q := jsonQueryFallback cte doc pk
       let nz : Lean.Json := match q with
         | .ok (some t) => .bool (jsonNonzero lits t)
@@ -135,7 +141,7 @@ def handle (j : Lean.Json) : Except String Lean.Json := do
       pure (Json.mkObj [
         ("traverse", encNav encDoc tv),
         ("python", encNav encDoc (pyNavigate doc keys)),
-        ("json1", match json1Extract doc keys with
+        ("json1", match json1Extract negHash doc keys with
                   | .ok v => Json.mkObj [("ok", encDoc v)]
                   | .error .pathError => Json.mkObj [("error", "pathError")]),
         ("extract1", encNav encDoc (pyJsonExtract1 cte doc pk)),
